@@ -185,7 +185,7 @@ def capture_text(dev):
     for attempt in (0, 1):
         implicit.parse_text = recorder
         try:
-            implicit._implicit_tree(dev)
+            env.call_private(implicit, "_implicit_tree", dev)
         finally:
             implicit.parse_text = orig
         if got:
@@ -828,7 +828,7 @@ def run_gen_real(c, t_list, u1, u2, no_new=False):
         config="running", args=args, downloaded_files={}, failed_files={}, running={dev: "\n".join(forest_text(t_list)) + "\n"},
         failed_running={}, no_new=no_new, stdin=None, add_annotations=False, add_implicit=True, do_files_download=False,
         gens=dg, fetched_packages={}, failed_packages={}, device_count=1, do_print_perf=False)
-    r = ann_gen._old_new_per_device(ctx, dev, None)
+    r = env.call_private(ann_gen, "_old_new_per_device", ctx, dev, None)
     if r.err:
         raise r.err
     return r
